@@ -10,6 +10,7 @@ import (
 	"encoding/json"
 	"fmt"
 	"os"
+	"time"
 
 	"github.com/coredhcp/coredhcp/config"
 	"github.com/coredhcp/coredhcp/handler"
@@ -143,7 +144,11 @@ func plugsubMain() {
 		res.NilHandler = true
 		return
 	}
+	hung := false
 	for _, r := range spec.Runs {
+		if hung {
+			break // one handler call never returned: the rest of the battery would only wait again
+		}
 		rb, _ := hex.DecodeString(r.Req)
 		pb, _ := hex.DecodeString(r.Resp)
 		var o subOut
@@ -162,7 +167,31 @@ func plugsubMain() {
 						o.Panic, o.PanicMsg = true, fmt.Sprint(x)
 					}
 				}()
-				out, o.Stop = h4(req, resp)
+				// a handler that does not come back (a wait that never ends) is reported, not waited for
+				type ret4 struct {
+					out  *dhcpv4.DHCPv4
+					stop bool
+					pan  interface{}
+				}
+				ch := make(chan ret4, 1)
+				go func() {
+					var rr ret4
+					defer func() {
+						rr.pan = recover()
+						ch <- rr
+					}()
+					rr.out, rr.stop = h4(req, resp)
+				}()
+				select {
+				case rr := <-ch:
+					if rr.pan != nil {
+						panic(rr.pan)
+					}
+					out, o.Stop = rr.out, rr.stop
+				case <-time.After(5 * time.Second):
+					hung = true
+					panic("the handler did not return within 5 s")
+				}
 			}()
 			if !o.Panic {
 				if out == nil {
@@ -212,7 +241,30 @@ func plugsubMain() {
 						o.Panic, o.PanicMsg = true, fmt.Sprint(x)
 					}
 				}()
-				out, o.Stop = h6(req, resp)
+				type ret6 struct {
+					out  dhcpv6.DHCPv6
+					stop bool
+					pan  interface{}
+				}
+				ch := make(chan ret6, 1)
+				go func() {
+					var rr ret6
+					defer func() {
+						rr.pan = recover()
+						ch <- rr
+					}()
+					rr.out, rr.stop = h6(req, resp)
+				}()
+				select {
+				case rr := <-ch:
+					if rr.pan != nil {
+						panic(rr.pan)
+					}
+					out, o.Stop = rr.out, rr.stop
+				case <-time.After(5 * time.Second):
+					hung = true
+					panic("the handler did not return within 5 s")
+				}
 			}()
 			if !o.Panic {
 				if out == nil {
